@@ -14,7 +14,7 @@ use vpmodel::spec::ChainSpec;
 pub const DEF: PropDef = PropDef {
     id: "C13",
     level: "exploration",
-    rule: "part 'threads': chains whose blocks hold up to hundreds of transactions and outputs (so that both nested parallel collects really split work) are processed with RAYON_NUM_THREADS in {1,2,3,8,16,64}, with 64 threads pinned to one CPU, and with 4 / 8 threads whose futex calls are delayed by injected syscall delays (every 2nd / 3rd call of every thread), while the other 15 shards keep all cores busy; every run must equal the reference model and the 1-thread run (csvdump byte-identical; simplestats report equal modulo the unordered type list; opreturn text identical; unspent/balances identical row sets). part 'reruns': sequences of 3..6 runs of generated callbacks sharing one data directory and one dump folder that is pre-seeded with longer stale *.tmp files and final-named files of an earlier range; after every run the callback's files must equal the model, no *.tmp of that callback may remain, SHA-256 of every blk*.dat and xor.dat and the key/value content of the index must be unchanged. Non-trivial = >=2 thread settings compared on a block with >=64 txs, or a sequence of >=3 runs; distinct by (chain hash, settings).",
+    rule: "part 'threads': chains whose blocks hold up to hundreds of transactions and outputs (so that both nested parallel collects really split work) are processed with RAYON_NUM_THREADS in {1,2,3,8,16,64}, with 64 threads pinned to one CPU, and with 4 / 8 threads whose futex calls are delayed by injected syscall delays (every 2nd / 3rd call of every thread), while the other 15 shards keep all cores busy; every run must equal the reference model and the 1-thread run (csvdump byte-identical; simplestats report equal modulo the unordered type list; opreturn text identical; unspent/balances identical row sets). part 'reruns': sequences of 3..6 runs of generated callbacks sharing one data directory and one dump folder that is pre-seeded with longer stale *.tmp files and final-named files of an earlier range; after every run the callback's files must equal the model, no *.tmp of that callback may remain, SHA-256 of every blk*.dat and xor.dat and the key/value content of the index must be unchanged. part 'same-directory-repeated': data directories with competing index records (C04's generator: stale siblings, failed blocks and reorged-out branches with data in a second blk file, header-only records) are processed by 6 fresh processes with different thread counts; all 6 results (exit status and canonical output) must be identical - no model is involved, so the open finding D7 of C04 does not interfere. Non-trivial = >=2 thread settings compared on a block with >=64 txs, a sequence of >=3 runs, or a directory with a competing record at an occupied height; distinct by (chain hash, settings).",
     assumptions: &["rayon's scheduler cannot be owned from outside: thread counts, CPU pinning and load sample interleavings, they do not enumerate them (DESIGN section 8)"],
     run,
     replay,
@@ -193,9 +193,44 @@ pub fn check_reruns(c: &RerunCase) -> Verdict {
     Verdict::Pass(Pass { nontrivial: c.runs.len() >= 3, key: key_of(c), classes, known: vec![], sub_evals: n, sample: Some(sample), extra_keys: vec![] })
 }
 
+/// The same data directory, holding competing index records (stale siblings, failed blocks, reorged-out
+/// branches with data in another blk file, header-only records), is processed by several fresh processes:
+/// whatever the tool delivers (known finding D7 of C04 makes that the key-order winner, not always the
+/// active block), it must deliver the same thing every time.
+pub fn check_repeat(c: &crate::c04::Case) -> Verdict {
+    let built = c.chain.build();
+    let crate::c04::Prepared { mut plan, pattern, interesting, .. } = crate::c04::prepare(c, &built);
+    let w = infra!(World::create("c13p", &mut plan));
+    let mut o = RunOpts::new(built.coin, c.cb);
+    let mut first: Option<(bool, String)> = None;
+    let reps = 6;
+    for k in 0..reps {
+        o.threads = Some([1, 4, 2, 16, 3, 8][k % 6]);
+        let out = infra!(w.run(&o));
+        if let Some(v) = timed_out_is_infra(&out) {
+            return v;
+        }
+        let cur = (out.ok(), canon(c.cb, &out));
+        match &first {
+            None => first = Some(cur),
+            Some(f) => {
+                if *f != cur {
+                    return Verdict::Fail(format!("process #{} of {} on the same data directory (extra index records {:?}) produced a different {} result than process #1 (exit ok: {} vs {})", k + 1, reps, pattern, c.cb.cli(), cur.0, f.0));
+                }
+            }
+        }
+    }
+    let mut pattern = pattern;
+    pattern.sort();
+    let classes: Vec<String> = pattern.iter().map(|p| format!("extra={}", p)).chain(std::iter::once(format!("cb={}", c.cb.cli()))).collect();
+    let sample = serde_json::json!({"coin": built.coin.cli(), "tip": built.tip(), "extras": pattern, "callback": c.cb.cli(), "processes": reps});
+    Verdict::Pass(Pass { nontrivial: interesting, key: key_of(c), classes, known: vec![], sub_evals: reps as u64, sample: Some(sample), extra_keys: vec![] })
+}
+
 fn run(eng: &Engine, a: &Args) {
     let (nt, nr) = if a.tier == Tier::Quick { (32, 80) } else { (400, 800) };
     let tier = a.tier;
+    eng.explore("same-directory-repeated", scaled(if a.tier == Tier::Quick { 64 } else { 800 }, a), move || crate::c04::strategy(tier), check_repeat);
     eng.explore("threads", scaled(nt, a), move || thread_strategy(tier), check_threads);
     eng.explore("reruns", scaled(nr, a), move || rerun_strategy(tier), check_reruns);
 }
@@ -204,6 +239,7 @@ fn replay(part: &str, case: serde_json::Value) -> Option<Verdict> {
     match part {
         "threads" => Some(check_threads(&serde_json::from_value(case).ok()?)),
         "reruns" => Some(check_reruns(&serde_json::from_value(case).ok()?)),
+        "same-directory-repeated" => Some(check_repeat(&serde_json::from_value(case).ok()?)),
         _ => None,
     }
 }
